@@ -186,11 +186,11 @@ def check_roa_coverage(ctx, f):
             a = K.arg_renders(c)
             return a[0] == "iter⟵self.%s_addrs" % fam
         res = loop_each_checked(b, nextp, lambda bd, s, bb, guard=guard: guard_edges(bd, s, bb, guard))
-        for c, ok, detail in res:
+        for where, ok, detail in res:
             n += 1
             ctx.ob("R-CHK", "RouteOriginAttestation::verify:each-%s-prefix-covered" % fam, ok,
                    "every %s ROA prefix is tested with contains_roa against the certificate's %s resources, "
-                   "failure rejects" % (fam, fam), where=c.where(), detail=detail)
+                   "failure rejects" % (fam, fam), where=where, detail=detail)
         if not res:
             ctx.ob("R-CHK", "RouteOriginAttestation::verify:each-%s-prefix-covered" % fam, False,
                    "no loop over self.%s_addrs found" % fam, where=b.loc)
